@@ -16,6 +16,12 @@ def addNC3 (a b : Jac) : Jac :=
   | some (r, _) => (rget r 6, rget r 7, rget r 8)
   | none => Jac.inf
 
+/-- `AddNonConst(&a, &b, &b)`: the result aliases the SECOND operand (no caller in the library does this) -/
+def addNCr2 (a b : Jac) : Jac :=
+  match runNamed "AddNonConst_a011" [a.1, a.2.1, a.2.2, b.1, b.2.1, b.2.2] [] with
+  | some (r, _) => (rget r 3, rget r 4, rget r 5)
+  | none => Jac.inf
+
 def isInfJ (q : Jac) : Bool := (q.1 == 0 && q.2.1 == 0) || q.2.2 == 0
 
 /-- `e.SetByteSlice(hash)` -/
